@@ -4,7 +4,7 @@ CONSTANTS
   MaxRs = {0, 1, 2, 3}
   HdrSel = {0, 100, 200, 10, 20, 220, 1, 2, 121, 222, 12}
   Codes = {200, 404, 300, 301, 302, 303, 307, 308}
-  Locs = {0, 1, 2, 3, 4, 5, 6}
+  Locs = {0, 1, 2, 3, 4, 5, 6, 7, 8}
   Follows = {TRUE, FALSE}
 VIEW View
 INVARIANT BoundedRedirects
